@@ -190,6 +190,15 @@ theorem invS_ret {env : CEnv} {st st' : HSt} {eff b e}
   obtain ⟨rfl, rfl, rfl⟩ := h
   exact ⟨c1, _, h1, rfl, rfl⟩
 
+theorem invS_vcall {env : CEnv} {st st' : HSt} {eff b name exts args params}
+    (h : compileStmtH env st (.vcall name exts args params) = .ok (eff, b, st')) :
+    ∃ cargs, compileArgsH env st args params = .ok (cargs, st') ∧ eff = some (vcallEffect name exts cargs) ∧ b = [] := by
+  simp only [compileStmtH] at h
+  obtain ⟨⟨cargs, s1⟩, h1, h⟩ := bind_ok h
+  simp only [Except.ok.injEq, Prod.mk.injEq] at h
+  obtain ⟨rfl, rfl, rfl⟩ := h
+  exact ⟨cargs, h1, rfl, rfl⟩
+
 theorem invS_skip {env : CEnv} {st st' : HSt} {eff b w}
     (h : compileStmtH env st (.skip w) = .ok (eff, b, st')) :
     (∃ x, eff = some x ∧ setTmps x = []) ∧ b = [] ∧ st' = st := by
